@@ -1,7 +1,7 @@
 """C04 (readiness clause, modular): the chain Plan::EdgeFinished -> NodeFinished -> EdgeMaybeReady -> ScheduleWork / pass-through and
 Plan::ScheduleInitialEdges, Edge::AllInputsReady, each real function against the contracts of its callees (props/planunit.py)."""
 from engine.selftest import subst
-from props import planjobs, builderjobs
+from props import planjobs, builderjobs, scanjobs
 
 ID = "C04"
 USES_CPP = True
@@ -27,7 +27,7 @@ KEYS = ["M1", "M2", "M3", "M4", "M8"]
 
 
 def jobs(tier, mutant=None):
-    return planjobs.select(tier, KEYS, r'\bC04\b', mutant) + builderjobs.select(tier, ["B1"], r'\bC04\b', mutant)
+    return planjobs.select(tier, KEYS, r'\bC04\b', mutant) + builderjobs.select(tier, ["B1"], r'\bC04\b', mutant) + scanjobs.select(tier, ["S3"], r'\bC04\b', mutant)
 
 
 def _m(target, old, new):
@@ -44,6 +44,7 @@ MUTANTS = [
     ("initial_edges_ignore_readiness", _m("ScheduleInitialEdges", "if (want == kWantToStart && edge->AllInputsReady()) {", "if (want == kWantToStart) {")),
     ("depfile_dir_not_created", _m("StartEdge", "  if (!depfile.empty() && !disk_interface_->MakeDirs(depfile))\n    return false;\n", "")),
     ("mkdir_failure_ignored", _m("StartEdge", "    if (!disk_interface_->MakeDirs((*o)->path()))\n      return false;", "    disk_interface_->MakeDirs((*o)->path());")),
+    ("order_only_producers_not_awaited_in_scan", _m("RecomputeEdgesInputsDirty", "      if (!in_edge->outputs_ready_)\n        edge->outputs_ready_ = false;", "      if (!in_edge->outputs_ready_ && !edge->is_order_only(i - edge->inputs_.cbegin()))\n        edge->outputs_ready_ = false;")),
     ("unplanned_consumer_checked", _m("NodeFinished", "    if (want_e == want_.end())\n      continue;\n", "    if (want_e == want_.end())\n      break;\n")),
 ]
 
